@@ -1,3 +1,99 @@
-From Ristretto Require Import Cache.Machine.
-Theorem C13_placeholder : True.
-Proof. exact I. Qed.
+(* C13 — The map, the capacity accounting and IterValues agree on what is resident.  Statements only. *)
+From stdpp Require Import gmap.
+From Ristretto Require Import Base.Word Cache.Policy Cache.PolicyProofs Cache.Store Cache.StoreProofs Cache.Machine
+  Cache.MachineProofs Cache.ExpProofs Cache.SyncProofs.
+Local Open Scope Z_scope.
+
+(* Runs without colliding live keys: every call names a primary hash with the one conflict hash [kc] assigns to
+   it.  Quiescent = write buffer empty, applier idle with no callback to deliver, no client inside a call. *)
+
+(* For every such schedule — any number of threads, evictions, rejections, expiries, buffer-full drops, Clear,
+   every applier and sweep lag — at every quiescent state the keys the accounting charges for are exactly the keys
+   held in the map. *)
+Theorem C13_agree : forall kc c maxCost bdur now0 mon sched,
+  Forall (label_kc kc) sched ->
+  let s := mrun c (init_state maxCost bdur now0 mon) sched in
+  quiescent s -> forall k, is_Some (s_store s !! k) <-> is_Some (p_costs (s_pol s) !! k).
+Proof.
+  intros kc c maxCost bdur now0 mon sched HL s Hq.
+  apply quiescent_agree; auto. apply (cv_sync _ _ (reachable_sync kc c maxCost bdur now0 mon sched HL)).
+Qed.
+
+(* In ALL reachable states (not only quiescent ones) a disagreement is always explained by work in flight:
+   a key in the map but not accounted is a victim the applier is about to remove or a tombstone it is applying;
+   an accounted key not in the map is being added, being swept, or has a pending tombstone. *)
+Theorem C13_in_flight : forall kc c maxCost bdur now0 mon sched,
+  Forall (label_kc kc) sched ->
+  let s := mrun c (init_state maxCost bdur now0 mon) sched in
+  ~ clr_busy (s_threads s) ->
+  (forall k, is_Some (s_store s !! k) ->
+     is_Some (p_costs (s_pol s) !! k) \/ k ∈ vict_keys (s_apc s) \/ deleting (s_apc s) k) /\
+  (forall k, is_Some (p_costs (s_pol s) !! k) ->
+     is_Some (s_store s !! k) \/ adding (s_apc s) k \/ sweeping (s_apc s) k \/
+     tomb_pending (s_buf s) (s_apc s) (s_threads s) k).
+Proof.
+  intros kc c maxCost bdur now0 mon sched HL s Hnb.
+  destruct (cv_sync _ _ (reachable_sync kc c maxCost bdur now0 mon sched HL)) as [H1 H2 _ _ _ _ _ _].
+  split; [exact (H1 Hnb)|exact (H2 Hnb)].
+Qed.
+
+(* IterValues (one instant over the map) yields exactly the values of the unexpired entries, each entry once. *)
+Theorem C13_iter : forall (st : store) now,
+  exists l, NoDup (l.*1) /\
+    (forall k it, (k, it) ∈ l <-> st !! k = Some it /\ (si_exp it = 0 \/ now <= si_exp it)) /\
+    store_iter st now = List.map (fun kv => si_val kv.2) l.
+Proof.
+  intros st now. exists (List.filter (fun kv => negb (expired now (si_exp kv.2))) (map_to_list st)).
+  split; [|split; [|reflexivity]].
+  - pose proof (NoDup_fst_map_to_list st) as Hnd. revert Hnd. generalize (map_to_list st) as l.
+    induction l as [|[k it] l IH]; simpl; intros Hnd; [constructor|].
+    inversion Hnd as [|? ? Hnin Hnd']; subst.
+    destruct (negb (expired now (si_exp it))); simpl; auto.
+    constructor; auto. intros Hin. apply Hnin.
+    apply in_map_iff in Hin. destruct Hin as ([k' it'] & Hk & Hin). simpl in Hk. subst k'.
+    apply elem_of_list_fmap. exists (k, it'). split; auto.
+    apply filter_In in Hin. apply elem_of_list_In. tauto.
+  - intros k it. rewrite elem_of_list_In, filter_In, <- elem_of_list_In, elem_of_map_to_list. simpl.
+    unfold expired. destruct (Z.eqb_spec (si_exp it) 0); destruct (Z.ltb_spec (si_exp it) now); simpl; intuition; lia.
+Qed.
+
+(* After every key has been deleted, expired-and-swept or cleared (the map is empty at a quiescent point),
+   RemainingCost() equals MaxCost and nothing is enumerated. *)
+Theorem C13_empty : forall kc c maxCost bdur now0 mon sched,
+  Forall (label_kc kc) sched ->
+  let s := mrun c (init_state maxCost bdur now0 mon) sched in
+  quiescent s -> (forall k, s_store s !! k = None) ->
+  pol_cap (s_pol s) = p_max (s_pol s) /\ store_iter (s_store s) (s_now s) = [].
+Proof.
+  intros kc c maxCost bdur now0 mon sched HL s Hq Hemp.
+  pose proof (reachable_sync kc c maxCost bdur now0 mon sched HL) as [_ _ Hpok Hsy].
+  assert (HP : p_costs (s_pol s) = ∅).
+  { apply map_empty. intros k. destruct (p_costs (s_pol s) !! k) eqn:E; auto.
+    assert (Hs : is_Some (s_store s !! k)) by (apply (quiescent_agree s Hsy Hq); rewrite E; eauto).
+    rewrite Hemp in Hs. destruct Hs; discriminate. }
+  split.
+  - rewrite pol_cap_spec by exact Hpok. rewrite HP, sum_costs_empty. lia.
+  - assert (Hs : s_store s = ∅) by (apply map_empty; exact Hemp). rewrite Hs. unfold store_iter.
+    now rewrite map_to_list_empty.
+Qed.
+
+(* Non-vacuity: a schedule with an admission, an eviction and a delete that ends quiescent. *)
+Definition c13_cfg : cfg :=
+  {| c_cap := 4; c_bdur := 5; c_ignore_internal := true; c_item_size := 56; c_should := fun _ _ => true;
+     c_costfn := None |}.
+Definition c13_sched : list label :=
+  [LCall 1 (OSet 7 100 11 60 0); LStep 1; LStep 1; LApp false []; LApp false []; LApp false []; LApp false [];
+   LCall 1 (OSet 8 200 12 60 0); LStep 1; LStep 1;
+   LApp false []; LApp false []; LApp false []; LApp false []; LApp false []; LApp false []; LApp false [];
+   LCall 2 (ODel 8 200); LStep 2; LStep 2; LStep 2; LApp false []; LApp false []; LApp false []; LApp false []].
+Example C13_nonvacuous :
+  let s := mrun c13_cfg (init_state 100 5 1000 true) c13_sched in
+  Forall (label_kc (fun k => (k * 0 + (if (k =? 7)%N then 100 else 200))%N)) c13_sched /\
+  s_buf s = [] /\ s_apc s = AIdle /\ s_apend s = [] /\ map_to_list (s_store s) = [] /\
+  exists rest, s_log s = ECb None (CbExit 0) :: ERet 2 (ODel 8 200) RUnit :: ECb (Some 2%nat) (CbExit 12) ::
+                         ECall 2 (ODel 8 200) 1000 :: ECb None (CbExit 11) :: ECb None (CbEvict 7 100 11 60) :: rest.
+Proof. vm_compute. repeat split; try (repeat constructor). eauto. Qed.
+
+Print Assumptions C13_agree.
+Print Assumptions C13_in_flight.
+Print Assumptions C13_empty.
